@@ -21,6 +21,7 @@ import (
 	"os"
 
 	"github.com/cockroachdb/errors/errorspb"
+	"github.com/cockroachdb/redact"
 	"github.com/gogo/protobuf/proto"
 	pkgErr "github.com/pkg/errors"
 )
@@ -163,6 +164,17 @@ type OpaqueErrno struct {
 
 // Error implements the error interface.
 func (o *OpaqueErrno) Error() string { return o.msg }
+
+// Format implements the fmt.Formatter interface.
+func (o *OpaqueErrno) Format(s fmt.State, verb rune) { FormatError(o, s, verb) }
+
+// SafeFormatError implements the SafeFormatter interface.
+// The message of an errno is safe for reporting, like
+// the native syscall.Errno.
+func (o *OpaqueErrno) SafeFormatError(p Printer) (next error) {
+	p.Print(redact.Safe(o.msg))
+	return nil
+}
 
 // Is tests whether this opaque errno object represents a special os error type.
 func (o *OpaqueErrno) Is(target error) bool {
